@@ -53,13 +53,15 @@ claimed = {
  'C18': ("contract-based deductive verification: site obligations at every driver call (callbacks, Begin, Connection, prepared-statement wrappers) that the context argument is the statement's/caller's context + derivation contracts (clone/getInstance/Session), SMT-discharged",
          "Proof that every ExecContext/QueryContext/QueryRowContext/PrepareContext/StmtContext/BeginTx/Conn call in /repo passes the context of the handle the operation started from, and that every derivation keeps or deliberately replaces that context.",
          "database/sql honours cancellation; internal sessions of preload/associations not yet swept", "4/C18"),
+ 'C20': ("contract-based deductive verification (guard structure only): ghost-protocol site obligations on migrator.AutoMigrate and its per-model closure (CreateTable / AddColumn / CreateConstraint / CreateIndex are reached only after the corresponding probe, asked about the same object, reported it missing), a sweep that AutoMigrate and MigrateColumn never call a Drop*/Rename* method, K3 writers sweeps for the names of parsed indexes and constraints, SMT-discharged",
+         "Proof of the guard-structure lemma of DESIGN 4/C20 only: whatever the models, AutoMigrate asks the dialect to create exactly those tables, columns, constraints and indexes that its own probes report missing, and asks for nothing destructive. That the probes answer truthfully, what the DDL does to existing rows, and MigrateColumn's decision to alter a column (type/size/default comparison) are the dialect migrator's and the SQL engine's and are NOT decided.",
+         "probes (HasTable, ColumnTypes, HasConstraint, HasIndex) and DDL are dialect code outside /repo; MigrateColumn's alter decisions; reflection-driven model reordering", "4/C20"),
  'C19': ("contract-based deductive verification: site obligations that every driver call in callbacks is dominated by !DryRun and every implicit Begin/Commit/Rollback by !SkipDefaultTransaction on the same Config; Session propagates both flags, SMT-discharged",
          "Proof that no callback executor reaches the driver in DryRun mode and that the session flags ToSQL sets are the ones the executors test.",
          "same-text part (no DryRun-dependent write to SQL/Vars) not yet mechanised", "4/C19"),
 }
 na_reason = {
  'C07': "quantifies over goroutine schedules and data races; sequential contracts cannot decide it (DESIGN.md section 5)",
- 'C20': "the probes (HasTable, column lookup, HasIndex, HasConstraint) and the DDL are the dialect migrator's and the SQL engine's, outside /repo; the guard-structure lemma planned as Tier 3 was not built (DESIGN.md sections 5 and 10.3)",
  'C12': "oracle is the database content after a history of association operations driven by reflection; not expressible in contracts within reach (DESIGN.md section 5)",
 }
 m = {
